@@ -10,6 +10,17 @@ CLAIMS = {
          "3.7, 4 (C18)"),
 }
 
+CLAIMS.update({
+ "C25": ("abstract evaluation of Merge/Intersect dispatch against set identities; may-alias analysis of scratch buffers; dominance guards",
+         "Decides that the Merge/Intersect dispatch implements union/intersection for every finite/co-finite operand combination (all 16 abstract states, checked on all subsets of a 3-element universe), that no set-algebra call reads an operand backed by its own scratch buffer, that sparse.Union only returns un-cloned storage once it has left the scratch array, and that complement-on-cycle errors are raised exactly under op==complement and onStack. Necessary conditions; the merge loops and the fixpoint are not decided.",
+         "Helpers combine/intersect/subtract are taken at their documented meaning; alias analysis is field-based and flow-insensitive across functions.",
+         "3.2, 3.3, 4 (C25)"),
+ "C15": ("SSA pattern/dominance rules over ResolveSets work-list cases; recursion-with-visited-set check; may-alias analysis",
+         "Decides that each of the any/first/last/precede/follow cases instantiates the right sets in the right direction with the right nullable polarity and fall-through guard, that all recursions over (cyclic) TokenSet values carry a visited set, and the set-closure obligations of C25. Necessary conditions of exact token sets, not the fixpoint itself.",
+         "Nullable() and rule extraction are trusted; cyclic TokenSet values arise only through named sets.",
+         "3.3, 3.4, 4 (C15)"),
+})
+
 NA = {
 }
 
